@@ -54,7 +54,20 @@ def run(R):
         and any(isinstance(v, tuple) and v[0] == 'aug' and isinstance(v[1].op, ast.Sub) and ast.unparse(v[1].value) == '1' for v in nt)
     if not oknum:
         probs.append(('named patterns are not numbered 1,2,.. / temporaries -1,-2,..', gp.f.node))
-    if probs:
+    # the counters this rule reads by name: where one of them no longer exists the numbering was restructured (itertools.count, a derived
+    # number ..) and the rule cannot read it - that is an analysis error, not a verdict; a counter that exists with a wrong start / step is one
+    unread = []
+    if not tti:
+        unread.append('self.temp_tag_index is never assigned in compile()')
+    if not inc and not use:
+        unread.append('_generate_node does not advance self.temp_tag_index')
+    if not nn or not nt:
+        unread.append('_gen_pattern_numbers has no next_named / next_temp counters')
+    if not cnt:
+        unread.append('ret.named_pattern_cnt is not assigned in compile()')
+    if unread:
+        R.defer('C11.TBL.1 (compiler side) cannot be read: ' + '; '.join(unread))
+    elif probs:
         for (what, construct) in probs:
             R.fail('C11.TBL.1', inst, CP + '.Compiler.compile', construct if not isinstance(construct, ast.FunctionDef) else 'def ' + construct.name, what,
                    site(cm, construct))
